@@ -113,6 +113,16 @@ theorem connect_clears_flag :
       t.head? == some (.call "set XMPPTransport.isSecure=false") && !t.contains (.call "set XMPPTransport.isSecure=true") &&
       (t.filter (fun a => match a with | .call w => w.startsWith "net.DialTimeout" | _ => false)).length == 1) = true := by decide +kernel
 
+/-- XMPPTransport.Connect does nothing with the new connection but wrap it (stream logger, buffered reader, decoder) and
+open the stream: no socket option that changes what a later `Close` does to data `Send` has accepted (C08), no deadline -/
+theorem connect_only_wraps :
+    allTraces (get "XMPPTransport.Connect") (fun t => t.all fun a =>
+      match a with
+      | .call w => w.startsWith "set XMPPTransport.isSecure=false" || w.startsWith "net.DialTimeout(" ||
+          w.startsWith "NewConnError(" || w == "newStreamLogger" || w.startsWith "bufio.NewReaderSize(" ||
+          w == "xml.NewDecoder" || w == "XMPPTransport.StartStream" || w.startsWith "return " || w == "time.Duration"
+      | _ => false) = true := by decide +kernel
+
 example : startTLSOk [.call "tls.Client", .call "Conn.Handshake", .call "set XMPPTransport.isSecure=true", .call "Conn.VerifyHostname",
     .call "return err"] = false := by decide +kernel
 example : routeOk [.call "Router.Match", .call "Handler.HandlePacket", .call "iqNotImplemented", .call "return "] = false := by decide +kernel
@@ -129,3 +139,4 @@ end XmppVerif.Tie.FxSend
 #print axioms XmppVerif.Tie.FxSend.starttls_every_run
 #print axioms XmppVerif.Tie.FxSend.starttls_checks_hostname
 #print axioms XmppVerif.Tie.FxSend.connect_clears_flag
+#print axioms XmppVerif.Tie.FxSend.connect_only_wraps
